@@ -418,9 +418,17 @@ class CompositeFrontend(ConstrainedFrontend):
             return [c for c in self.constraints if c.is_false()]
 
         cores = []
+        solvers = self._solver_list
 
-        for solver in self._solver_list:
-            cores.extend(list(solver.unsat_core(extra_constraints=extra_constraints)))
+        if len(extra_constraints) != 0:
+            # extra constraints can connect several children, none of which is unsatisfiable with them on its own:
+            # the children they touch answer together
+            extra_solver = self._merged_solver_for(lst=extra_constraints)
+            cores.extend(list(extra_solver.unsat_core(extra_constraints=extra_constraints)))
+            solvers = [s for s in solvers if not s.variables & extra_solver.variables]
+
+        for solver in solvers:
+            cores.extend(list(solver.unsat_core()))
 
         return cores
 
